@@ -8,6 +8,7 @@ import storefam
 import concfam
 import scfam
 import tempfam
+import tevalfam
 from vlib import InfraError
 
 CHECKS = {}
@@ -26,6 +27,8 @@ def replay(ctx, path):
     fam = obj.get("replay_family", "eval")
     if fam == "eval":
         return evalfam.replay(ctx, obj)
+    if fam == "teval":
+        return tevalfam.replay(ctx, obj)
     if fam == "tstore":
         return tempfam.replay(ctx, obj)
     if fam == "sc":
@@ -92,3 +95,8 @@ def c19(ctx):
 @register("C13")
 def c13(ctx):
     return tempfam.check_c13(ctx)
+
+
+@register("C14")
+def c14(ctx):
+    return tevalfam.check_c14(ctx)
